@@ -1,5 +1,9 @@
 package dtls
 
+// GENERATED from harness/C19/resume_seq.go (only zzC19SequenceSpaceEndAcrossExport is kept as an entry): for C09 the
+// export / import of a connection at the end of its 48-bit sequence space is one more place where a (key, nonce) pair
+// could be used twice - the imported counter must be the exported one, unclamped, and exhaustion must survive.
+
 //symgo:pkg github.com/pion/dtls/v3
 //symgo:param NREC quick=2 thorough=4
 //symgo:param NPAY quick=2 thorough=4
@@ -164,7 +168,6 @@ func zzC19SameNegotiated(a, b *State) bool {
 // (epoch, sequence number) pair - hence no AEAD nonce - is used twice, and the connection-ID framing of the records is
 // the same before and after. A further export taken from the resumed connection reports s0+n0+n1+n2.
 //
-//symgo:entry covers=client,server,plain,cidwrap,export_fresh,export_after_records,second_export_same_point,second_export_later,resumed_idle,resumed_sends
 func zzC19ResumeContinuesSequence() {
 	zzC19SeqEpochs, zzC19SeqSeqs = nil, nil
 	nrec := zzsymParam("NREC")
@@ -385,4 +388,15 @@ func zzC19SequenceSpaceEndAcrossExport() {
 	if refused {
 		zzsymCover("exhausted_stays_exhausted_after_resume")
 	}
+}
+
+func zzC19EqCerts(a, b [][]byte) bool {
+	if len(a) != len(b) {
+		return false
+	}
+	ok := true
+	for i := range a {
+		ok = zzsymAnd(ok, zzsymEqBytes(a[i], b[i]))
+	}
+	return ok
 }
